@@ -243,4 +243,34 @@ theorem absNode_two (lvl : ObsLevel) (f : Flow) (n : Node) (op : Str) (cases : L
   · have h1 : (List.range (m + 1))[i]? = none := by simp; omega
     rw [h1]; simp [hi]
 
+/-- a random router whose categories and exits correspond by position: the abstraction lists the
+exits in order -/
+theorem absNode_random (lvl : ObsLevel) (f : Flow) (n : Node) (cats : List Category) (rn : Option Str)
+    (hr : n.router = some (.random cats rn)) (hcn : (cats.map (·.uuid)).Nodup) (hen : (n.exits.map (·.uuid)).Nodup)
+    (hce : cats.map (·.exitUuid) = n.exits.map (·.uuid)) :
+    absNode lvl f n =
+      { acts := n.actions.map (·.obs), ask := some (routerObs lvl (.random cats rn)),
+        dests := n.exits.map (fun e => destIdx f e.dest) } := by
+  have p : CatsPos n (.random cats rn) := ⟨hr, hcn, hen, hce⟩
+  have hlen : cats.length = n.exits.length := by
+    have := congrArg List.length hce; simpa using this
+  have hsel : ∀ c, c < routerArity (.random cats rn) →
+      ∃ cat, (Router.cats (.random cats rn))[c]? = some cat ∧ routerChoice (.random cats rn) c = some cat.uuid := by
+    intro c hc
+    simp only [routerArity] at hc
+    refine ⟨cats[c], by simp [Router.cats, hc], by simp [routerChoice, hc]⟩
+  rw [p.abs (fun c => c) hsel]
+  congr 1
+  simp only [routerArity]
+  apply List.ext_getElem?
+  intro i
+  simp only [List.getElem?_map, List.getElem?_range']
+  by_cases hi : i < cats.length
+  · have h1 : (List.range cats.length)[i]? = some i := by simp [hi]
+    have h2 : i < n.exits.length := by omega
+    rw [h1]; simp [h2]
+  · have h1 : (List.range cats.length)[i]? = none := by simp; omega
+    have h2 : n.exits[i]? = none := by simp; omega
+    rw [h1, h2]; rfl
+
 end Rpft.Flow
